@@ -115,6 +115,7 @@ func (vc *VC) execInstr(fr *Frame, st *State, instr ssa.Instruction) {
 		val := vc.value(fr, st, x.Val)
 		vc.writeLoc(st, loc, val)
 		vc.noteStore(fr, st, x.Addr, loc, x.Pos())
+		vc.frameStore(fr, st, x.Addr, loc, x.Pos())
 
 	case *ssa.BinOp:
 		vc.execBinOp(fr, st, x)
@@ -217,6 +218,7 @@ func (vc *VC) execInstr(fr *Frame, st *State, instr ssa.Instruction) {
 		vc.set(st, dom, fmt.Sprintf("(store %s %s (store (select %s %s) %s true))", vc.get(st, dom), m, vc.get(st, dom), m, k))
 		vc.set(st, val, fmt.Sprintf("(store %s %s (store (select %s %s) %s %s))", vc.get(st, val), m, vc.get(st, val), m, k, v))
 		vc.noteMapWrite(fr, st, x.Map, x.Pos())
+		vc.assignCheck(fr, st, dom, m, x.Pos())
 
 	case *ssa.Lookup:
 		vc.execLookup(fr, st, x)
@@ -372,7 +374,9 @@ func (vc *VC) execTypeAssert(fr *Frame, st *State, x *ssa.TypeAssert) {
 	vc.safety(fr, st, "typeassert", "type assertion to "+typeKey(x.AssertedType)+" succeeds", ok, x.Pos())
 	vc.bind(fr, x, vc.sortOf(x.AssertedType), val)
 	// after a successful assertion the dynamic type is known
-	vc.fact(st.pc, ok)
+	if vc.inSpec == 0 {
+		vc.fact(st.pc, ok)
+	}
 }
 
 func (vc *VC) implementsTerm(iface string, target types.Type) string {
@@ -743,4 +747,42 @@ func (vc *VC) execLookup(fr *Frame, st *State, x *ssa.Lookup) {
 		return
 	}
 	fr.env[x] = v
+}
+
+
+// frameStore checks a store against the modifies clause.
+func (vc *VC) frameStore(fr *Frame, st *State, addr ssa.Value, loc *Loc, pos token.Pos) {
+	// stores into objects allocated by this activation are always allowed
+	switch a := addr.(type) {
+	case *ssa.Alloc:
+		return
+	case *ssa.FieldAddr:
+		if _, ok := a.X.(*ssa.Alloc); ok {
+			return
+		}
+	case *ssa.IndexAddr:
+		if _, ok := a.X.(*ssa.Alloc); ok {
+			return
+		}
+		if sl, ok := a.X.(*ssa.Slice); ok {
+			if _, ok := sl.X.(*ssa.Alloc); ok {
+				return
+			}
+		}
+		if _, ok := a.X.(*ssa.MakeSlice); ok {
+			return
+		}
+	}
+	switch loc.kind {
+	case "field", "cell", "elem":
+		vc.assignCheck(fr, st, loc.sv, loc.base, pos)
+	case "sub":
+		ms := map[string]bool{}
+		vc.modStruct(loc.typ, ms)
+		for sv := range ms {
+			vc.assignCheck(fr, st, sv, loc.subRef, pos)
+		}
+	case "global":
+		vc.assignCheckWhole(fr, st, loc.sv, pos)
+	}
 }
